@@ -50,6 +50,9 @@ type vsPartition struct {
 	okFetches int64         // fetch answers without error served for this partition
 	aborted   []VSimAborted // first offset of each aborted transaction (with producer id and last offset)
 	lso       int64         // last stable offset; -1 = equals high watermark
+	// offsets a log cleaner removed (compacted topic): still counted by the log
+	// (offsets are not reused) but never served
+	holes map[int64]bool
 }
 
 type vsBatchMeta struct {
@@ -817,4 +820,24 @@ func (s *VSim) OKFetches(topic string, part int32) int64 {
 		}
 	}
 	return 0
+}
+
+// SetHoles marks offsets of a partition as removed by log compaction: fetch
+// answers are framed over the remaining records only (a batch or wrapper then
+// has non-contiguous record offsets), the offsets themselves stay taken.
+func (s *VSim) SetHoles(topic string, partition int32, offsets []int64) {
+	s.mu.Lock()
+	defer s.mu.Unlock()
+	t := s.topics[topic]
+	if t == nil {
+		return
+	}
+	part := t.parts[partition]
+	if part == nil {
+		return
+	}
+	part.holes = map[int64]bool{}
+	for _, o := range offsets {
+		part.holes[o] = true
+	}
 }
